@@ -96,6 +96,18 @@ func vBGSuccess(st *os.ProcessState) bool {
 
 func vBGString(st *os.ProcessState) string { return "exit status (model)" }
 
+// vBGExited: the process ended by exiting (with any status), not by a signal.
+func vBGExited(st *os.ProcessState) bool {
+	if vBG != nil {
+		for _, p := range vBG.procs {
+			if p.state == st {
+				return p.selfExit
+			}
+		}
+	}
+	return false
+}
+
 // vBGWait is waitOrStop over the model: it returns once the process has ended.
 func vBGWait(ctx context.Context, c *exec.Cmd, killDelay time.Duration) error {
 	p := vBG.byCmd(c)
@@ -125,6 +137,7 @@ var vC04BGStubs = map[string]any{
 	"stub:(*os.Process).Kill":         vBGKill,
 	"stub:(*os.ProcessState).Success": vBGSuccess,
 	"stub:(*os.ProcessState).String":  vBGString,
+	"stub:(*os.ProcessState).Exited":  vBGExited,
 }
 
 // VerifC04Background: up to two background commands, then one of several endings.
@@ -142,9 +155,14 @@ func VerifC04Background() {
 		if negs[i] {
 			sb.WriteString("! ")
 		}
-		sb.WriteString("exec ./p" + strconv.Itoa(i) + " &\n")
+		// the first command is started under a name
+		if i == 0 {
+			sb.WriteString("exec ./p0 &n0&\n")
+		} else {
+			sb.WriteString("exec ./p" + strconv.Itoa(i) + " &\n")
+		}
 	}
-	ending := rt.IntRange(0, 5) // 0 nothing, 1 wait, 2 failing line, 3 skip, 4 stop, 5 wait then failing line
+	ending := rt.IntRange(0, 6) // 0 nothing, 1 wait, 2 failing line, 3 skip, 4 stop, 5 wait then failing line, 6 wait for the named command
 	switch ending {
 	case 1:
 		sb.WriteString("wait\n")
@@ -156,6 +174,9 @@ func VerifC04Background() {
 		sb.WriteString("stop\n")
 	case 5:
 		sb.WriteString("wait\nexists nope\n")
+	case 6:
+		sb.WriteString("wait n0\n")
+		rt.Assume(plan[0].selfExit) // waiting for a command that runs until signalled blocks by the script's own doing
 	}
 	// a bare wait (also issued by skip? no: skip does not wait) blocks by the script's own doing when it reaches a
 	// process that runs until signalled while every earlier one passed its status check: not generated
@@ -185,10 +206,48 @@ func VerifC04Background() {
 		rt.Assert(p.waited, "every-started-process-waited-for")
 	}
 	rt.Assert(tab.hangs == 0, "run-never-blocks-on-an-unstopped-process")
+	// verdict: a background command must (or, negated, must not) succeed once its status is checked by wait
+	if len(root.subs) == 1 {
+		sub := root.subs[0]
+		statusFails := func(i int) bool { return (plan[i].selfExit && !plan[i].fails) == negs[i] }
+		wantFail, wantSkip := false, false
+		switch ending {
+		case 1, 5:
+			for i := range plan {
+				if statusFails(i) {
+					wantFail = true
+				}
+			}
+			if ending == 5 {
+				wantFail = true
+			}
+		case 2:
+			wantFail = true
+		case 3:
+			// skip shuts the background commands down first and checks their status
+			for i := range plan {
+				if statusFails(i) {
+					wantFail = true
+				}
+			}
+			wantSkip = !wantFail
+		case 6:
+			wantFail = statusFails(0)
+			rt.Reach("wait-for-named-command")
+		}
+		// (stop and the plain end of a script: the documentation and the code differ on whether the
+		// status is still checked; nothing is demanded there)
+		if ending != 0 && ending != 4 {
+			rt.Assert(sub.failed == wantFail, "background-status-decides-the-verdict")
+			if !wantFail {
+				rt.Assert(sub.skipped == wantSkip, "background-skip-verdict")
+			}
+		}
+	}
 	switch ending {
 	case 0, 4:
 		rt.Reach("ends-with-processes-running")
-	case 1, 5:
+	case 1, 5, 6:
 		rt.Reach("wait")
 	case 2:
 		rt.Reach("fails-with-processes-running")
